@@ -297,6 +297,10 @@ void EntityManager::applyCommandPack(TemporalStorage& storage, size_t begin, siz
     }
     else {
         auto archetype = getArchetypeOf(entity);
+        if (archetype == nullptr) {
+            // the target is not alive at this point (destroyed earlier, or never existed): skip its commands
+            return;
+        }
         final_mask = archetype->componentMask();
         shared = archetype->sharedComponentInfo();
     }
